@@ -317,9 +317,10 @@ theorem C16_child_hint_not_unit (input : DataType) (hv : validate input = [])
               (if input.attrs.attrs.isEmpty then ["At least one trait instruction is expected."] else [])))))
       ca hca cd hcd hu
     have h3 := ext_validateWhereAttrs input.attrs.whereAttrs (input.attrs.attrs.map (·.core.ty)) _ _ h2
+    have h3' := mem_foldl_of_mem (attrsByKind input.attrs) (updatePass input) _ _ (fun x es hm => ext_updatePass input x es _ hm) h3
     have h4 := mem_foldl_of_mem input.members
       (validateMember input (match input with | .enum _ => true | .struct _ => false) (input.attrs.attrs.map (·.core.ty)) (attrsByKind input.attrs)) _ _
-      (fun member es hm => ext_validateMember _ _ _ _ member es _ hm) h3
+      (fun member es hm => ext_validateMember _ _ _ _ member es _ hm) h3'
     cases input with
     | struct s => exact ext_validateFields _ _ _ _ _ h4
     | enum e =>
